@@ -51,6 +51,31 @@ CLAIMED["C14"] = dict(
    note="Trusted: Lean kernel; history theorems assume the manifest decoder is a function of (bytes, media type) and no hash collision among pushed manifest bytes (explicit hypotheses); concurrency of the mode rests on C08's single-critical-section fact.",
    technique="Lean 4 proof (tag stability and reachability retention for all histories) + directed/random differential histories",
    design="§5 C14")
+CLAIMED["C04"] = dict(
+   text="Lean 4 theorem chunked_commit_exact over a model composing the client blobWriter (chunk/size/flushed/chunkSize, flush labelled with RangeString), the server's chunkRange/ParseRange and the in-memory buffer's offset check: for every content, every partition into writes, every chunk size (including 0 and 1) and every admissible pattern of close-and-resume in either mode (asking is excluded exactly when one byte has been received — shown necessary by a counterexample theorem), the run succeeds and committing with the right digest leaves exactly the concatenation of the written bytes; data at a wrong offset is refused (rangeInvalid), a wrong digest is refused and nothing is stored; every resume offset equals the bytes received so far. Correspondence: generated upload scripts over ocimem, one and two HTTP hops and ociunify, with a recording shim that makes the registry minimum chunk size small and logs the backend calls, diffed with the model's predicted call log.",
+   note="Trusted: Lean kernel; net/http request framing (Content-Length enforcement); io.Copy's write splitting (merged before comparison); two-hop and unify stacks are checked against the abstract claim (all writes accepted, commit exact) rather than a composed model.",
+   technique="Lean 4 proof (inductive invariant over upload scripts, range-codec exactness) + differential upload scripts with backend call logs",
+   design="§5 C04")
+CLAIMED["C05"] = dict(
+   text="Lean 4 theorems: pager_lossless (for every strictly ascending listing, every page size >= 1 and every start point, the client pager over the real server truncation logic yields exactly the items strictly after the start — including exact page multiples), the script view of the pager (terminates with finite answers, never calls the consumer after it declines or after an error, yields a prefix), Mem listings are exactly the sorted keys after the start (C02), Select/Sub/Unify listing combinators (C12 listing_filtered, C13 sub_listing, C15 merge). Correspondence: generated item sets around multiples of the page size, start points (absent/equal/between/beyond/URL metacharacters), page sizes, server limits, Link on/off, 1-2 hops and 19 wrapper stacks (wire, debug, select, sub, unify and combinations), consumers stopping at every k, compared with the listing specification computed independently in Go and by the model driver.",
+   note="Trusted: Lean kernel; net/url escaping of the `last` parameter and Link URL resolution; the composition of combinators across a whole stack is established by differential runs, the per-combinator statements are theorems.",
+   technique="Lean 4 proof (pager losslessness by strong induction, combinator lemmas) + differential listings over wrapper/wire stacks",
+   design="§5 C05")
+CLAIMED["C12"] = dict(
+   text="Lean 4 theorems over the guard table regenerated from select.go on every run: for every method row satisfying a decidable predicate and every policy (arbitrary function of name and access kind) and backend: a failing guard returns the policy's error with no backend call (mount guards both repositories); when all guards pass there is exactly one backend call with the same method and arguments and the result is returned unchanged; the Repositories iterator delivers exactly the allowed items in order, stops when the consumer declines and forwards a backend error last; Select's error kinds. `decide` checks the regenerated table (18 methods, expected access kinds). Correspondence: all 18 methods x every allow/deny assignment x kinds against a recording backend (exhaustive), random policies, listings with consumers stopping at every k.",
+   note="Trusted: Lean kernel; translator's extraction of guards/delegations from select.go (unknown shapes fail the obligation); the literal repository name '*' is carved out (never a valid name).",
+   technique="Lean 4 proof over translator-regenerated guard table (decide) + exhaustive policy enumeration against a recording backend",
+   design="§5 C12")
+CLAIMED["C13"] = dict(
+   text="Lean 4 theorems: sub_confined (for every prefix and EVERY byte-string name the mapped name starts with prefix/), injectivity and strip/map laws, order lemma; over the table regenerated from sub.go: every repository argument and the listing start of every method is mapped and nothing else, every method rewrites scopes; the view's listing from any start point is exactly the stripped names under the prefix, ascending; repository-typed scopes are rewritten with the same map, others untouched, unlimited/empty passed through (reusing the proved scope algebra). Counterexample theorem for the old path.Join mapping. Correspondence: recording backend + ocimem with textual-prefix siblings, prefixes of 1-3 elements, dirty names (empty, dot, dot-dot, slashes, upper case), all start points, all 18 methods, context scopes incl. unlimited, diffed against the restricted Mem model.",
+   note="Trusted: Lean kernel; translator's recognition of sub.go's shapes (mapScopes and repo() by normalised text: any edit fails an obligation).",
+   technique="Lean 4 proof (confinement for all names, listing/scope rewriting over regenerated table) + differential against the restricted model",
+   design="§5 C13")
+CLAIMED["C19"] = dict(
+   text="Lean 4 theorems over a model of decodeConfigFile's loop (which mutates the map it ranges over, modelled as any admissible visiting sequence), EntryForRegistry, decodeAuth and base64: decode_order_independent (any two visiting orders give equivalent lookups on every host), load_fails_iff, explicit_wins, collision_fails, single_url_key, absent_host, lookup_precedence (per-host helper final; default store final unless missing; else table), lookups_independent, decodeAuth_roundtrip with Base64 decode_encode proved; structural facts of authfile.go regenerated and checked by `decide`. Correspondence: generated config documents (host keys, URL keys, collisions, auth edge cases, helpers) loaded 32 times each through the public API with shuffled key orders and lookup orders, real docker-credential-* helper scripts, diffed with the model; independence and precedence oracles.",
+   note="Trusted: Lean kernel; encoding/json (the harness parses with a mirror struct tied to the source by a generated fact); Go's map-iteration guarantee; os/exec.",
+   technique="Lean 4 proof (permutation invariance via a characterising invariant; base64 round trip) + repeated-decoding differential",
+   design="§5 C19")
 NOT_YET = {}
 
 def main():
